@@ -115,6 +115,35 @@ def gen_table(rng, lo, hi, vlo, vhi, cover=True):
     return fs, vs
 
 
+def zero_crossing_dispersion(rng, fd, chans):
+    """dispersion (slope or per-frequency table) whose zero lies inside the comb, off the channel grid and away from
+    the mirror points where two channels would have exactly opposite beta2 (0/0 in the kernel): beta2 changes sign
+    across the channels.  None if no safe position is found."""
+    c0 = 299792458.0
+    fs = sorted(c[0] for c in chans)
+    for _ in range(12):
+        i = rng.randrange(len(fs) - 1)
+        t = rng.choice([rng.uniform(0.08, 0.42), rng.uniform(0.58, 0.92)])
+        fz = fs[i] + t * (fs[i + 1] - fs[i])
+        if rng.random() < 0.6:
+            fref = c0 / 1550e-9 if not fd['ref'] else (c0 / fd['ref'][1] if fd['ref'][0] == 'w' else fd['ref'][1])
+            slope = rng.uniform(0.04e3, 0.09e3)
+            cand = ['l', slope * (c0 / fref - c0 / fz), slope]
+        else:
+            lo, hi = fs[0] - rng.uniform(1e9, 1e12), fs[-1] + rng.uniform(1e9, 1e12)
+            k = rng.uniform(2e-18, 8e-18)              # s/m^2 per Hz
+            cand = ['t', [lo, fz, hi], [k * (fz - lo), 0.0, -k * (hi - fz)]]
+        b2 = [ref_phys(dict(fd, disp=cand), f)[1] for f in fs]
+        big = max(abs(x) for x in b2)
+        if min(abs(x) for x in b2) < 1e-3 * big:
+            continue
+        if any(abs(b2[a] + b2[b]) < 1e-3 * big for a in range(len(b2)) for b in range(a + 1, len(b2))):
+            continue
+        if min(b2) < 0 < max(b2):
+            return cand
+    return None
+
+
 def gen_case(rng, nmax=120, malformed=False):
     chans = gen_comb(rng, nmax)
     lo = min(c[0] for c in chans)
@@ -144,16 +173,31 @@ def gen_case(rng, nmax=120, malformed=False):
         # D + slope; keep the zero-dispersion frequency outside of the comb (beta2 of a pair must not cancel)
         fd['disp'] = ['l', rng.uniform(8e-6, 2.5e-5),
                       rng.choice([0.06e3, 0.058e3, rng.uniform(0.02e3, 0.09e3), 0.0, 0.0, 1e-9, -1e-9, -0.03e3, 0])]
+    if not malformed and len(chans) >= 2 and rng.random() < 0.15:
+        z = zero_crossing_dispersion(rng, fd, chans)
+        if z:
+            fd['disp'] = z
     r = rng.random()
     fd['area'] = None if r < 0.4 else (['a', rng.uniform(50e-12, 130e-12)] if r < 0.75 else ['g', rng.uniform(0.7e-3, 2.2e-3)])
-    return {'fiber': fd, 'chan': chans, 'order': 'shuffled' if rng.random() < 0.3 and len(chans) > 1 else 'sorted',
+    raman_flag = False
+    if not malformed and len(chans) <= 40 and rng.random() < 0.25:
+        # Raman-amplified span (needs the Raman solver) or a plain fibre with inter-channel Raman scattering on
+        raman_flag = True
+        if rng.random() < 0.7:
+            npump = rng.randint(1, 3)
+            fd['raman'] = {'temperature': rng.choice([283, 298.15]),
+                           'pumps': [[rng.uniform(0.05, 0.3), rng.uniform(200e12, 206e12),
+                                      rng.choice(['counterprop', 'counterprop', 'coprop'])] for _ in range(npump)]}
+            fd['att_in'] = rng.choice([rng.uniform(0.3, 4), rng.uniform(0.3, 4), 0])
+            fd['length_km'] = rng.uniform(20, 160)
+    return {'fiber': fd, 'raman_flag': raman_flag, 'chan': chans, 'order': 'shuffled' if rng.random() < 0.3 and len(chans) > 1 else 'sorted',
             'perm_seed': rng.randint(0, 10 ** 9), 'k': rng.choice([2.0, 2.0, 0.5, rng.uniform(0.25, 4)]),
             'pick': rng.randint(0, len(chans) - 1), 'raise_db': rng.uniform(0.1, 6)}
 
 
 # ------------------------------------------------------------------ implementation driver
 def make_fiber(fd):
-    from gnpy.core.elements import Fiber
+    from gnpy.core.elements import Fiber, RamanFiber
     p = {'length': fd['length_km'], 'length_units': 'km', 'att_in': fd['att_in'], 'con_in': fd['con_in'],
          'con_out': fd['con_out'], 'pmd_coef': 1.265e-15, 'loss_coef': fd['loss']}
     if fd['ref']:
@@ -169,9 +213,22 @@ def make_fiber(fd):
     a = fd['area']
     if a:
         p['effective_area' if a[0] == 'a' else 'gamma'] = a[1]
-    fib = Fiber(uid='fiber', type_variety='SSMF', params=p)
+    rm = fd.get('raman')
+    if rm:
+        fib = RamanFiber(uid='fiber', type_variety='SSMF', params=p, operational={
+            'temperature': rm['temperature'],
+            'raman_pumps': [{'power': pw, 'frequency': fr, 'propagation_direction': d_} for pw, fr, d_ in rm['pumps']]})
+    else:
+        fib = Fiber(uid='fiber', type_variety='SSMF', params=p)
     fib.ref_pch_in_dbm = 0.0
     return fib
+
+
+def set_sim(raman_flag):
+    from gnpy.core.parameters import SimParams
+    SimParams.set_params({'nli_params': {'method': 'gn_model_analytic'},
+                          'raman_params': {'flag': bool(raman_flag), 'result_spatial_resolution': 10e3,
+                                           'solver_spatial_resolution': 100}})
 
 
 def make_si(chans):
@@ -199,8 +256,9 @@ def direct_nli(fib, chans, duck=False):
 def drive(case):
     """returns dict(out= list of nli | 'E:Type', ratio=..., phys=...) from Fiber.__call__ with compute_nli wrapped"""
     import gnpy.core.science_utils as su
-    import gnpy.core.elements as el
+    from gnpy.core.info import SpectralInformation
     rec = {}
+    set_sim(case.get('raman_flag'))
     try:
         fib = make_fiber(case['fiber'])
     except Exception as e:   # noqa
@@ -216,7 +274,14 @@ def drive(case):
         captured['pch'] = [float(x) for x in spectral_info.pch]
         captured['freq'] = [float(x) for x in spectral_info.frequency]
         return res
+    orig_add = SpectralInformation.add_nli
+
+    def wrapped_add(self, nli):
+        res = orig_add(self, nli)
+        captured['share'] = [float(x) for x in self._nli_ratio]     # before a Raman fibre adds its ASE
+        return res
     su.NliSolver.compute_nli = staticmethod(wrapped)
+    SpectralInformation.add_nli = wrapped_add
     try:
         supplied = list(case['chan'])
         if case.get('order') == 'shuffled':      # the comb is handed over in another order; SpectralInformation sorts
@@ -228,12 +293,14 @@ def drive(case):
             rec['out'] = captured['nli']
             rec['pch_at_nli'] = captured['pch']
             rec['freq'] = captured['freq']
-            rec['nli_ratio'] = [float(x) for x in out._nli_ratio]
+            rec['nli_ratio'] = captured['share']
         except Exception as e:  # noqa
             rec['out'] = f'E:{type(e).__name__}'
             rec['exc'] = str(e)
     finally:
         su.NliSolver.compute_nli = staticmethod(orig)
+        SpectralInformation.add_nli = orig_add
+        set_sim(False)
     try:
         f0 = chans[0][0]
         rec['phys'] = [float(fib.alpha(f0)), float(fib.beta2(f0)), float(fib.gamma(f0))]
@@ -500,8 +567,16 @@ def run(ctx):
         ctx.count('disp_' + (fd['disp'][0] if fd['disp'] else 'default'))
         ctx.count('area_' + (fd['area'][0] if fd['area'] else 'default'))
         ctx.count('ref_' + (fd['ref'][0] if fd['ref'] else 'default'))
+        if fd.get('raman'):
+            ctx.count('raman_fiber')
+        elif c.get('raman_flag'):
+            ctx.count('plain_fiber_raman_flag_on')
         ctx.count('comb_mixed' if len({(ch[1], ch[2]) for ch in chans}) > 1 else 'comb_uniform')
         ctx.count('outcome_numeric' if numeric else 'outcome_' + rec['out'])
+        if numeric and not isinstance(rec['phys'], str):
+            b2s = [ref_phys(fd, ch[0]) for ch in chans]
+            if all(b2s) and min(x[1] for x in b2s) < 0 < max(x[1] for x in b2s):
+                ctx.count('beta2_changes_sign_in_comb')
         if numeric:
             for key, desc in oracle(c, rec, rng):
                 ctx.violation(key, desc, strip(c))
@@ -520,8 +595,14 @@ def run(ctx):
                 for name, a, b in zip(('alpha', 'beta2', 'gamma'), rec['phys'], ref):
                     if not close(a, b, 1e-9):
                         ctx.violation('fibre_coefficient', f'{name} at {chans[0][0]:.6g} Hz: fibre gives {a!r}, declared parameters give {b!r}', strip(c))
-            # the NLI really added to the spectrum is the vector compute_nli returned, channel by channel
+            # the spectrum handed to the NLI solver is the input spectrum after the input connector and padding
             att = 10 ** (-(fd['con_in'] + fd['att_in']) / 10)
+            for i, (pw, ch) in enumerate(zip(rec['pch_at_nli'], chans)):
+                if not close(pw, ch[3] * att, 1e-12):
+                    ctx.violation('launch_power', f'channel {i}: NLI computed on {pw!r} W, input after con_in + att_in '
+                                  f'({fd["con_in"]} + {fd["att_in"]} dB) is {ch[3] * att!r} W', strip(c))
+                    break
+            # the NLI really added to the spectrum is the vector compute_nli returned, channel by channel
             for i, (r_, nl, ch) in enumerate(zip(rec['nli_ratio'], rec['out'], chans)):
                 if not close(r_, nl / (ch[3] * att), 1e-9):
                     ctx.violation('nli_not_added', f'channel {i}: nli share after Fiber.__call__ {r_} != compute_nli/pch {nl / (ch[3] * att)}', strip(c))
